@@ -3,7 +3,8 @@ RoutingRequestHandler is called with DAMAGED routing / composite metadata - ever
 single-byte replacement / insertion of the bytes 0x00, 0x01, 0x7f, 0x80, 0xff at every position - the way RSocketBase calls it.
 
 "processing of any input terminates": each call runs under an interval timer; an input that is still being processed after the budget
-is a violation (C12.terminates).  "confined to being ignored or answered with an ERROR frame": the entry point either serves the request
+is a violation (C12.terminates).  The timer counts the CPU time of this process (ITIMER_VIRTUAL), not wall-clock time: a loaded machine
+cannot make a terminating parse look stuck.  "confined to being ignored or answered with an ERROR frame": the entry point either serves the request
 or fails with an ordinary exception (which the receiver turns into ERROR on that stream) - and a well-formed request made afterwards on
 the same handler is served (C12.probe_served)."""
 import asyncio
@@ -91,7 +92,7 @@ def check(v, prop='C12'):
     good = _bases()[0]
     loop = asyncio.new_event_loop()
     asyncio.set_event_loop(loop)
-    old = signal.signal(signal.SIGALRM, _alarm)
+    old = signal.signal(signal.SIGVTALRM, _alarm)
     n = stuck = 0
     types = ['response', 'stream', 'channel', 'fnf', 'push']
     try:
@@ -104,18 +105,18 @@ def check(v, prop='C12'):
                 ts = types if thorough else [types[(len(seen) + bi) % 5], 'response']
                 for t in dict.fromkeys(ts):
                     n += 1
-                    signal.setitimer(signal.ITIMER_REAL, 4.0)
+                    signal.setitimer(signal.ITIMER_VIRTUAL, 4.0)
                     try:
                         loop.run_until_complete(invoke(handler, t, Payload(b'data', m)))
                     except _Stuck:
                         stuck += 1
                         v.add_failure('C12.terminates', {'layer': 'routing', 'type': t},
-                                      'RoutingRequestHandler.%s: processing of a request with metadata %s did not terminate (4 s)' % (t, m.hex()),
+                                      'RoutingRequestHandler.%s: processing of a request with metadata %s did not terminate (4 s of CPU time)' % (t, m.hex()),
                                       {'kind': 'routinghostile', 'type': t, 'metadata': m.hex()})
                     except Exception:
                         pass            # (an ordinary exception out of the entry point is turned into ERROR on that stream by the receiver)
                     finally:
-                        signal.setitimer(signal.ITIMER_REAL, 0)
+                        signal.setitimer(signal.ITIMER_VIRTUAL, 0)
                     if stuck >= 5:
                         break
                 if stuck >= 5:
@@ -124,19 +125,19 @@ def check(v, prop='C12'):
                 break
             # a well-formed request is still served by the same handler
             del served[:]
-            signal.setitimer(signal.ITIMER_REAL, 4.0)
+            signal.setitimer(signal.ITIMER_VIRTUAL, 4.0)
             try:
                 out = loop.run_until_complete(invoke(handler, 'response', Payload(b'data', good)))
             except (_Stuck, Exception) as ex:
                 out = ('error', ex)
             finally:
-                signal.setitimer(signal.ITIMER_REAL, 0)
+                signal.setitimer(signal.ITIMER_VIRTUAL, 0)
             if out[0] != 'ok' or served != ['response']:
                 v.add_failure('C12.probe_served', {'layer': 'routing'}, 'after the damaged metadata derived from %s a well-formed request was not served: %r' % (base.hex(), out),
                               {'kind': 'routinghostile', 'base': base.hex()})
     finally:
-        signal.setitimer(signal.ITIMER_REAL, 0)
-        signal.signal(signal.SIGALRM, old)
+        signal.setitimer(signal.ITIMER_VIRTUAL, 0)
+        signal.signal(signal.SIGVTALRM, old)
         loop.close()
         logging.disable(logging.NOTSET)
     v.add('routing_hostile_inputs', n)
